@@ -40,7 +40,7 @@ TRUSTED = ["mpmath 1.3 at 50 digits (exp, log, erf, erfinv, gamma, loggamma, gam
            "reference of the definitions; self-test in finalize"]
 
 EPSF = 2.0 ** -53
-ASSUMPTIONS += ["KDE with a bandwidth below 1/64 of the spacing of its 150-point table is excluded: every tabulated value can underflow to zero and "
+ASSUMPTIONS += ["KDE with a MANUAL bandwidth below 1/64 of the spacing of its 150-point table is excluded (an automatic one falls back to one spacing, fix d44bb3e): every tabulated value can underflow to zero and "
                 "no table can be normalised then (the generator goes down to 0.047 table spacings)",
                 "Likelihood_Poisson with s+b = 0 and n > 0 (log-likelihood -inf, likelihood 0 = PMF_Poisson(0,n)) is not compared with the model (outside exact arithmetic)"]
 ASSUMPTIONS += ["CDF_Poisson / CDF_Chi_Square on the quadrature branch of GammaQ (counts >= 100, dof > 200; fix 3e583ff): the CDF may decrease by at most 1e-6 of "
@@ -49,10 +49,6 @@ ASSUMPTIONS += ["CDF_Poisson / CDF_Chi_Square on the quadrature branch of GammaQ
                 "of 2.4e-9); CDF differences vs the mass function there at 1e-7",
                 "Quantile_Gauss for 0 < p < 5.6e-17: the argument 2p-1 rounds to -1 and the result is mu - 10 sqrt2 sigma (fix e9e1286), the exact quantile "
                 "(e.g. -8.49 sigma at p = 1e-17) is not representable through that argument; p = 0 gives the same value, p < -5e-17 a diagnostic"]
-PENDING_C07_8 = True   # OPEN DEFECT found after fix 405b930 (repair proposed: /tmp/fixprop-C07-8): set to False once it is in /repo
-ASSUMPTIONS += [t for f, t in ((PENDING_C07_8, "OPEN DEFECT (fixprop-C07-8): Perform_KDE with the automatic bandwidth on identical points with UNEQUAL weights is nan "
-                                               "(spurious variance ~1e-31 from the rounded mean; the zero-bandwidth fallback of 405b930 is not taken): such samples are "
-                                               "excused; after the repair every automatic bandwidth below 1/64 table spacing falls back to one spacing"),) if f]
 K_MB = 64          # ulps of the two cancelling terms of CDF_Maxwell_Boltzmann (calibrated: worst observed on the unchanged tree x16)
 K_ERF = 4          # ulps of a double erf value near +-1 that the root of erf(x) - y cannot resolve
 K_EXP = 64         # relative K*eps*(size of the exponent) for exp-type formulas
@@ -793,13 +789,7 @@ def _check(op, a, ti, mt, ctx):
             bw = math.sqrt(var) * (4.0 / 3.0 / N) ** 0.2
         auto = fl(a[3 + 2 * N]) == 0
         spacing = (xmax - xmin) / 149.0
-        if auto and PENDING_C07_8 and N > 1 and len({v for v, _ in d}) == 1 and len({w for _, w in d}) > 1:
-            # OPEN DEFECT (fixprop-C07-8): identical points with unequal weights: the rounded weighted mean leaves a spurious variance ~1e-31
-            # and the fallback of fix 405b930 (bandwidth exactly 0) is not taken: nan
-            ctx["excused"] += 1
-            bump(ctx, "KDE: identical points with unequal weights, automatic bandwidth (open defect, fixprop-C07-8)")
-            return out
-        if auto and not (bw > (0.0 if PENDING_C07_8 else spacing / 64)):
+        if auto and not (bw > spacing / 64):
             bw = spacing                      # the fallback of the automatic bandwidth for a sample without (resolvable) spread
         if bw < (xmax - xmin) / 149 / 64:
             # stated exclusion: every tabulated value of such a narrow kernel can underflow to zero (nothing to normalise)
